@@ -516,6 +516,22 @@ impl RawRecords {
                 )
             })?;
         header.validate()?;
+        // Record with valid header can be truncated (crash in the middle of write). It should be detected even
+        // when data is not read, otherwise new records will be appended into the range that this record claims
+        let record_end = self
+            .current_offset
+            .saturating_add(self.record_header_size)
+            .saturating_add(header.meta_size())
+            .saturating_add(header.data_size());
+        if record_end > self.file.size() {
+            return Err(Error::bincode(format!(
+                "record at {} is truncated: it should end at {}, but file size is {}",
+                self.current_offset,
+                record_end,
+                self.file.size()
+            ))
+            .into());
+        }
         self.current_offset += self.record_header_size;
         self.current_offset += header.meta_size();
         let data = if read_data {
